@@ -16,6 +16,9 @@ What is modelled (mirrors the code line by line where it matters):
   certificate digests, selected profile, exported keying material) and of libsrtp (unprotect outcome) is
   an INPUT carried by the event: the model contains the decisions the Python code takes on those answers.
 
+* `_write_ssl` as a function on the outgoing memory BIO (a byte stream of whole records): one `bio_read` of at most
+  `chunk` bytes = one datagram (`writeSsl`, `sendRecords`; `sendReads` takes the observed `bio_read` sizes as inputs).
+
 The model is of the FIXED code (fixes/C04-*.patch): `_recv_next` hands application data to the data
 receiver only in state CONNECTED, `start()` no longer asserts on an empty fingerprint list (the
 identity check then fails the transport), and fingerprint values are compared lower-cased (so that only
@@ -232,7 +235,9 @@ inductive Ev
   | hsOk (dg : Digests) (selected : String) (material : Bytes)
                                  -- do_handshake returned; then identity check and SRTP setup (synchronous)
   | pump (d : RecvIn)            -- one iteration of `__run`
-  | sendData (d : Bytes)
+  | sendData (d : Bytes) (sslErr : Option String)
+                                 -- `sslErr = some k`: `self._ssl.send(data)` raised exception `k` (OpenSSL refuses an
+                                 -- empty message and one of more than 2^14 bytes)
   | sendRtp (d : Bytes) (protectOk : Bool)
                                  -- `protectOk = false`: `_tx_srtp.protect[_rtcp]` raised pylibsrtp.Error
                                  -- (libsrtp refuses an index that is behind its own replay window)
@@ -283,8 +288,13 @@ def step (t : T) : Ev → T × List Eff
       | .crash k => ({ t with state := .closed, pumping := false }, [.raised k, .state .closed])
       | .oracleMissing => (t, [.oracleMissing])
     else (t, [.invalid])
-  | .sendData d =>
-    if t.state ≠ .connected then (t, [.refused]) else (t, [.sentData d])
+  | .sendData d sslErr =>
+    -- `sentData d` = the plaintext was handed to `_ssl.send`; when OpenSSL refuses it the exception escapes
+    -- `_send_data` (visible to the caller) and nothing reaches the wire
+    if t.state ≠ .connected then (t, [.refused])
+    else match sslErr with
+      | none => (t, [.sentData d])
+      | some k => (t, [.sentData d, .raised k])
   | .sendRtp d protectOk =>
     -- `sentRtp d` = the plaintext was handed to `protect`; when libsrtp refuses it the exception escapes
     -- `_send_rtp` and nothing reaches the wire
@@ -307,6 +317,50 @@ def run (t : T) : List Ev → T × List Eff
 /-- A freshly constructed transport. -/
 def init (profiles : List Profile) (hasDataReceiver : Bool) (role : Role) : T :=
   { profiles := profiles, hasDataReceiver := hasDataReceiver, role := role }
+
+/-! ## `_write_ssl`: from OpenSSL's outgoing memory BIO to datagrams
+
+The outgoing BIO is a BYTE STREAM: OpenSSL appends whole DTLS records to it (a handshake flight, one record per
+`_ssl.send(data)`, an alert), `_write_ssl` takes at most `chunk` bytes out of it with ONE `bio_read(chunk)` and hands
+them to the ICE transport as ONE datagram; an empty BIO (`SSL.Error`) sends nothing. DTLS never re-assembles a record
+from two datagrams, so a data message survives iff its record leaves in one piece and at the start of a datagram.
+`chunk` is what the harness sees the real method pass to `bio_read`. -/
+
+/-- One `_write_ssl` call on a BIO holding `bio`: (the datagram sent, if any; what stays in the BIO). -/
+def writeSsl (chunk : Nat) (bio : Bytes) : Option Bytes × Bytes :=
+  if bio.take chunk = [] then (none, bio) else (some (bio.take chunk), bio.drop chunk)
+
+/-- `_send_data` on a connected transport whose BIO still holds `pending`: OpenSSL appends the record, then
+`_write_ssl`. -/
+def sendRecord (chunk : Nat) (pending record : Bytes) : Option Bytes × Bytes :=
+  writeSsl chunk (pending ++ record)
+
+/-- A run of `_send_data` calls (`some record`) and bare `_write_ssl` calls (`none`, e.g. the one at the end of
+`_recv_next`): the datagrams in order, and what is left in the BIO. -/
+def sendRecords (chunk : Nat) : Bytes → List (Option Bytes) → List (Option Bytes) × Bytes
+  | pending, [] => ([], pending)
+  | pending, r :: rs =>
+    let x := sendRecord chunk pending (r.getD [])
+    let y := sendRecords chunk x.2 rs
+    (x.1 :: y.1, y.2)
+
+/-- The same with the `bio_read` sizes of one step given one by one (what the harness sees the method ask for: the
+pinned code reads once per call; a variant that drains the BIO reads until it is empty): every non-empty read is one
+datagram. -/
+def writeReads : List Nat → Bytes → List Bytes × Bytes
+  | [], bio => ([], bio)
+  | n :: ns, bio =>
+    match writeSsl n bio with
+    | (none, b) => writeReads ns b
+    | (some d, b) => let r := writeReads ns b; (d :: r.1, r.2)
+
+/-- Steps `(record appended or none, bio_read sizes of the step)`. -/
+def sendReads : Bytes → List (Option Bytes × List Nat) → List (List Bytes) × Bytes
+  | pending, [] => ([], pending)
+  | pending, (r, reads) :: rs =>
+    let x := writeReads reads (pending ++ r.getD [])
+    let y := sendReads x.2 rs
+    (x.1 :: y.1, y.2)
 
 /-! ## the SRTP replay windows of the two sessions that `_setup_srtp` creates
 
